@@ -92,7 +92,8 @@ func (graph *Graph) parallelStabilize(ctx context.Context) (err error) {
 	if len(immediateRecompute) > 0 {
 		graph.recomputeHeap.mu.Lock()
 		for _, n := range immediateRecompute {
-			if n.Node().heightInRecomputeHeap == HeightUnset {
+			// a node torn down during the pass has no height to be queued at; see Stabilize
+			if n.Node().heightInRecomputeHeap == HeightUnset && n.Node().height != HeightUnset {
 				graph.recomputeHeap.addNodeUnsafe(n)
 			}
 		}
